@@ -3,7 +3,7 @@ default boundary table."""
 import itertools
 
 from .facts import AnalysisBroken
-from .interp import NAN, Arr, Iter, Obj, Sc, Vec, box, val
+from .interp import DEFAULT_ATOM, NAN, Arr, Iter, Obj, Sc, Vec, box, val
 from .r_reg import Cases, World, windows
 from .r_reg_spl import spline_view, valid_spline
 
@@ -218,6 +218,9 @@ def generator_support_suite(chk, w, rule, maxlen, orders=(0, 1, 2, 3), ns=None, 
                             if inside and (arr is None or all(isinstance(x, Sc) and x.v == 0 for x in arr)):
                                 good, why = False, "function %d vanishes identically on interval %d inside its knot " \
                                                    "span [%d,%d]" % (i, I, lo, hi)
+                    if good and any(isinstance(x, Sc) and DEFAULT_ATOM in x.deps for arr in view[1].values() for x in arr):
+                        good, why = False, "a coefficient of function %d depends on the value of a default-constructed " \
+                                           "T (only static_cast<T>(0) is a documented zero)" % i
                     cs.expect(fg, "the i-th function is supported exactly on the knot span [t_i, t_{i+p+1}] (grid "
                                   "intervals of positive width; zero elsewhere; interval-free if the span has no width)",
                               dict(case, i=i), r, good, "support = grid window [%d,%d] (%s)" % (lo, hi, why))
